@@ -49,8 +49,11 @@ pub fn z2_for_ref(m: &HashMap<usize, Noisy>) -> u32 {
 pub fn z2_set_iter(m: &HashSet<usize>) -> usize {
     m.iter().sum()
 }
-pub fn z2_drop_map(m: HashMap<usize, Noisy>) {
+pub fn z2_drop_map(m: HashMap<usize, Box<dyn std::any::Any>>) {
     drop(m)
+}
+pub fn z2_drop_map_scope(m: HashMap<usize, Box<dyn std::any::Any>>) -> usize {
+    m.len()
 }
 pub fn z2_retain(m: &mut HashMap<usize, Noisy>) {
     m.retain(|_, v| v.0 > 0)
